@@ -12,7 +12,10 @@ workers=${VERIF_THREADS:-16}
 dir=$VERIF_DIR/.work/fuzz/$id-$phase
 rm -rf "$dir"; mkdir -p "$dir/corpus" "$dir/artifacts"
 if ! CARGO_TARGET_DIR=$VERIF_DIR/.target/fuzz cargo +nightly fuzz build -s none --fuzz-dir fuzz prop_case > "$dir/build.log" 2>&1; then
-  echo "INCONCLUSIVE property=$id fuzz target build failed (see $dir/build.log)"; tail -n 15 "$dir/build.log"; exit 2
+  # the stage is an extension of the thorough tier: without the nightly fuzz build it is skipped and said so
+  echo "NOTE property=$id coverage-guided stage skipped: fuzz target build failed (see $dir/build.log)"
+  echo "{\"property\":\"$id\",\"phase\":\"$phase\",\"skipped\":\"fuzz target build failed\"}" > "$dir/summary.json"
+  exit 0
 fi
 bin=$VERIF_DIR/.target/fuzz/x86_64-unknown-linux-gnu/release/prop_case
 seed=$(( (${VERIF_SEED:-1} % 2000000000) + 1 ))
@@ -27,8 +30,12 @@ art=$(ls "$dir"/artifacts/crash-* 2>/dev/null | head -1)
 if [ -n "$art" ]; then
   for b in release checked; do
     [ -x "$VERIF_DIR/.target/$b/dlv" ] || continue
-    "$VERIF_DIR/.target/$b/dlv" tape "$id" "$phase" "$art"; rc=$?
-    [ $rc -eq 1 ] && exit 1
+    out=$("$VERIF_DIR/.target/$b/dlv" tape "$id" "$phase" "$art"); rc=$?
+    if [ $rc -eq 1 ]; then
+      echo "$out" | grep -v '^TAPE-FAILURE '
+      echo "FUZZ-REPLAY $(echo "$out" | sed -n 's/^TAPE-FAILURE .*replay=//p' | head -1)"
+      exit 1
+    fi
   done
   echo "INCONCLUSIVE property=$id a fuzzer artifact ($art) does not reproduce outside the fuzz build"; exit 2
 fi
